@@ -544,7 +544,9 @@ def _matrix_variants(focus):
 
 def enum_matrix(tier):
   cases = []
-  for focus in (1, 3, 4):
+  # focus trial: 1 = ACTIVE (own, with a measurement), 3 = queued REQUESTED,
+  # 4 = completed (thorough tier only: those pairs are mostly rejections)
+  for focus in ((1, 3, 4) if tier == 'thorough' else (1, 3)):
     vs = _matrix_variants(focus)
     for i in range(len(vs)):
       for j in range(i, len(vs)):
